@@ -122,6 +122,53 @@ def random_case(rng):
     return {"kind": "response", "ranges": ranges, "encs": encs}
 
 
+def endpoint_stage(out, cases, rng):
+    """The same negotiation through generated endpoints (private::server::response -> the response serializer): TLC's response
+    cases with two encodings of one type are mapped onto the runtime's defaults (JSON, Smile); every header line the case
+    renders becomes one Accept line of a request sent through the loopback of harness/vgen."""
+    docs, meta = [], {}
+    k = 0
+    for c in cases:
+        if c["kind"] != "response" or len(c["encs"]) != 2:
+            continue
+        e1, e2 = c["encs"]
+        if e1["ty"] != e2["ty"] or e1["sub"] == e2["sub"]:
+            continue
+        tys = {e1["ty"]: "application"}
+        subs = {e1["sub"]: "json", e2["sub"]: "x-jackson-smile"}
+        tl = [tys.get(i + 1, ["text", "image", "x-verif"][i % 3]) for i in range(5)]
+        sl = [subs.get(i + 1, ["plain", "cbor", "html", "xml"][i % 4]) for i in range(6)]
+        lines = render_accept(c["ranges"], tl, sl, rng)
+        muts = [{"op": "drop_header", "name": "accept"}] + [{"op": "append_header", "name": "accept", "value": l} for l in lines]
+        for client in ("gen-blocking", "gen-async"):
+            cid = "e%d" % k
+            k += 1
+            docs.append(json.dumps({"id": cid, "endpoint": "limited", "args": {"body": "b"}, "ret": "text", "client": client, "server": client,
+                                    "mutations": muts, "smile": False, "chunk": 1}))
+            meta[cid] = (c, lines)
+    if not docs:
+        raise vc.ToolError("no response case with two encodings of one type")
+    n = 0
+    for obs in vc.ndjson(vc.harness_parallel("vgen", ["rpc"], docs, nproc=4)):
+        c, lines = meta[obs["id"]]
+        n += 1
+        rep = {"accept_lines": lines, "ranges": c["ranges"], "endpoint": "limited"}
+        if "panic" in obs or "skip" in obs:
+            out.violation("C11:endpoint:panic", "loopback call failed: %s" % str(obs.get("panic") or obs.get("skip"))[:100], rep)
+            continue
+        ex = obs["exchanges"][0] if obs["exchanges"] else {}
+        ct = ex.get("resp_ctype")
+        chosen = {"application/json": 1, "application/x-jackson-smile": 2}.get(ct, 0)
+        if ex.get("server_error") is None and chosen == 0:
+            raise vc.ToolError("unexpected response Content-Type %r" % ct)
+        if not prop_ok(c, chosen):
+            out.violation("C11:endpoint:%s" % ("not-permitted" if chosen else "none-chosen"),
+                          "Accept lines %s through a generated endpoint: encoding %s chosen, the property demands %s" % (
+                              lines, ct or "none (error)", c.get("prop")), rep)
+    vc.log("[endpoints] %d negotiated responses" % n)
+    return n
+
+
 def run(tier, seed):
     out = vc.Outcome(PID, tier, seed, "model_checking")
     rng = vc.Rng(seed)
@@ -156,7 +203,7 @@ def run(tier, seed):
             docs.append(json.dumps(conc))
             meta[cid] = (c, conc)
     text = vc.harness("vh", ["negotiate"], stdin="\n".join(docs) + "\n")
-    replayed = 0
+    replayed = endpoint_stage(out, cases, rng)
     nontrivial = set()
     samples = []
     for obs in vc.ndjson(text):
